@@ -27,8 +27,13 @@ class References:
           break
       if has_undef_overlaps:
         cigar = gfapy.AlignmentPlaceholder()
-      else:
+      elif i < len(self.overlaps):
         cigar = self.overlaps[i]
+      else:
+        # (not checked on construction at vlevel 0)
+        raise gfapy.InconsistencyError(
+          "Path has {} oriented segments, ".format(len(self.segment_names))+
+          "but {} overlaps".format(len(self.overlaps)))
       retval.append([self.segment_names[i], self.segment_names[j], cigar])
     return retval
 
